@@ -380,6 +380,37 @@ fn state_specs(max_rules: usize) -> Vec<LSpec> {
         .collect()
 }
 
+/// Specifications that exercise sequences of stack operations: `n` named rules, rule k matching
+/// the single letter k, every start-state prefix x every target operation (incl. push / replace
+/// of INITIAL itself, so that the run-length encoded bottom entry gets a count above one).
+fn stack_specs(n: usize, rich: bool) -> Vec<LSpec> {
+    let prefixes: Vec<Vec<usize>> = if rich { vec![vec![], vec![1], vec![2], vec![1, 2], vec![0]] } else { vec![vec![], vec![2]] };
+    let targets = if rich {
+        vec![Target::None, Target::Replace(0), Target::Replace(1), Target::Replace(2), Target::Push(0), Target::Push(1), Target::Push(2), Target::Pop(1), Target::Pop(2)]
+    } else {
+        vec![Target::None, Target::Replace(2), Target::Push(0), Target::Push(1), Target::Pop(1)]
+    };
+    let letters = ["a", "b", "c", "d"];
+    let mut lists: Vec<Vec<LRule>> = vec![vec![]];
+    for k in 0..n {
+        let mut next = vec![];
+        for l in &lists {
+            for p in &prefixes {
+                for t in &targets {
+                    let mut l2 = l.clone();
+                    l2.push(LRule { re: letters[k].to_string(), name: Some(format!("T{}", k)), states: p.clone(), target: t.clone() });
+                    next.push(l2);
+                }
+            }
+        }
+        lists = next;
+    }
+    lists
+        .into_iter()
+        .map(|l| LSpec { states: vec![("S".to_string(), false), ("X".to_string(), true)], rules: l, case_insensitive: false, dot_matches_new_line: true, multi_line: true })
+        .collect()
+}
+
 pub fn run(ctx: Ctx) -> i32 {
     if let Some(case) = load_replay(&ctx) {
         // replays re-lex the stored text with default ids against a reference rebuilt from it
@@ -432,6 +463,18 @@ pub fn run(ctx: Ctx) -> i32 {
             })
             .reduce(Stats::default, |a, b| a.merge(b)),
     );
+    // 4. sequences of stack operations
+    let (kspecs, kinputs): (Vec<LSpec>, Vec<String>) = if ctx.quick() { (stack_specs(3, true), strings(&["a", "b", "c"], 5)) } else { (stack_specs(3, true).into_iter().chain(stack_specs(4, false)).collect(), strings(&["a", "b", "c", "d"], 6)) };
+    total = total.merge(
+        kspecs
+            .par_iter()
+            .map(|s| {
+                let mut st = Stats::default();
+                check_spec(&ctx, s, &kinputs, false, &mut st);
+                st
+            })
+            .reduce(Stats::default, |a, b| a.merge(b)),
+    );
     if total.lexemes == 0 || total.errors == 0 || total.idmaps == 0 {
         machinery("vacuous exploration (C09)");
     }
@@ -448,6 +491,7 @@ pub fn run(ctx: Ctx) -> i32 {
         "plain_specs": n1,
         "flag_specs": fspecs.len(),
         "start_state_specs": sspecs.len(),
+        "stack_operation_specs": kspecs.len(),
         "runs": total.runs,
         "lexemes_compared": total.lexemes,
         "runs_ending_in_error": total.errors,
